@@ -14,6 +14,7 @@ From Coq Require Import NArith List Bool.
 Require Import SDS.Model.Mach SDS.Model.Bits SDS.Model.Raw SDS.Model.IntVec SDS.Model.BitVec SDS.Model.Iters.
 Require Import SDS.Spec.BitSeq SDS.Spec.SeqSpec SDS.Spec.Deque SDS.Spec.IterRefs.
 Require Import SDS.Proofs.IntVecProof SDS.Proofs.BVCommon SDS.Proofs.IterProof.
+Require Import SDS.Proofs.OneIterProof SDS.Proofs.SelectProof SDS.Proofs.C10Glue.
 Import ListNotations.
 Open Scope N_scope.
 
@@ -281,3 +282,28 @@ Example C10_one_iter_example :
   snd (dq_run [(0, 0); (1, 3); (2, 64); (3, 69)] cs) =
     [Count 4; Item (Some (2, 64)); Item (Some (0, 0)); Item None; Item None; Item None].
 Proof. vm_compute. repeat split; reflexivity. Qed.
+
+(* ---- the word-scanning set-bit iterator OneIter<T>, unconditionally (hypotheses of C10_one_iter_from_steps
+   discharged with the one-step lemmas of Proofs/OneIterProof.v and Proofs/SelectProof.v) ---- *)
+
+(* every interleaving of next / next_back / nth(k) / nth_back(k) / len, every k < 2^64, both transformations
+   (ones and zeros), both in-word select paths and both arithmetic modes, from any state satisfying the
+   iterator invariant: the outputs are those of the deque over the unvisited ranked positions *)
+Theorem C10_one_iter : forall sp m t b B cs it, bv_repr b B -> oi_inv t B it -> Forall call_fits cs ->
+  exists it', it_run (oi_step sp m t b) it cs = Ok (it', snd (dq_run (oi_mid t B it) cs)) /\
+              oi_inv t B it' /\ oi_mid t B it' = fst (dq_run (oi_mid t B it) cs).
+Proof. exact one_iter_all_histories. Qed.
+Print Assumptions C10_one_iter.
+
+(* the six entry points (one_iter, zero_iter, select_iter, select_zero_iter, predecessor, successor) start at the
+   right suffix of the ranked positions and then behave as above *)
+Theorem C10_one_iter_entries : forall sp0 m0 sp m b B, bv_repr b B ->
+  select_ok sp0 m0 Identity b B -> select_ok sp0 m0 Complement b B ->
+  (forall i, i < 2 ^ 64 -> bv_rank_q b i = Ok (rank1 B i)) ->
+  forall e tr it0 l cs, oi_entry sp m b e = Some (tr, it0) ->
+    bitvec_ref B (ranked_ones B) e = Some l ->
+    match e with ESelect x | ESelectZero x | EPred x | ESucc x => x < 2 ^ 64 | _ => True end ->
+    Forall call_fits cs ->
+    exists it it', it0 = Ok it /\ it_run (oi_step sp m tr b) it cs = Ok (it', snd (dq_run l cs)).
+Proof. exact one_iter_entries_all_histories. Qed.
+Print Assumptions C10_one_iter_entries.
